@@ -1,5 +1,6 @@
 import Drive.Json
 import PlaybackModel.Codec
+import PlaybackModel.Lexer
 import PlaybackModel.Keys
 import PlaybackModel.Cassette
 /-! Line-protocol handlers for the codec / key / cassette models (C06, C07).
@@ -126,6 +127,14 @@ def roundtripH : Handler := fun j => do
   | some v' => .ok (jObj [("v", ofVal v')])
   | none => .ok .null
 
+/-- {"m":"c06.roundtripText","v":v} → wire of decodeText(encodeText(v)): the TEXT is lexed character by character, then parsed
+and restored | null when the model's lexer / parser rejects -/
+def roundtripTextH : Handler := fun j => do
+  let v ← toVal (← field j "v")
+  match decodeText (encodeText v) with
+  | some v' => .ok (jObj [("v", ofVal v')])
+  | none => .ok .null
+
 /-- {"m":"c06.outkey","alias":..,"n":k} -/
 def outkeyH : Handler := fun j => do
   .ok (.str (outputKey (← strField j "alias") (← natField j "n")))
@@ -190,7 +199,8 @@ def runH : Handler := fun j => do
   .ok (jArr (← steps c [] (← arrField j "ops")))
 
 def handlers : List (String × Handler) :=
-  [("c06.key", keyH), ("c06.encode", encodeH), ("c06.roundtrip", roundtripH), ("c06.outkey", outkeyH),
+  [("c06.key", keyH), ("c06.encode", encodeH), ("c06.roundtrip", roundtripH), ("c06.roundtripText", roundtripTextH),
+   ("c06.outkey", outkeyH),
    ("c07.run", runH)]
 
 end Drive.Codec
